@@ -450,10 +450,10 @@ func parseClauses(c *Contract, d *directive) error {
 				c.Closures[n] = clause
 			case "assert":
 				key := strings.Join(strings.Fields(m[3]), " ")
-				if !strings.HasPrefix(key, "call ") && !strings.HasPrefix(key, "return") {
-					return fmt.Errorf("assert[call <callee>#k] or assert[return#k] expected: %q", cl)
+				if !strings.HasPrefix(key, "call ") && !strings.HasPrefix(key, "return") && !strings.HasPrefix(key, "backedge ") {
+					return fmt.Errorf("assert[call <callee>#k], assert[return#k] or assert[backedge <loop>] expected: %q", cl)
 				}
-				if !strings.Contains(key, "#") {
+				if !strings.Contains(key, "#") && !strings.HasPrefix(key, "backedge ") {
 					key += "#0"
 				}
 				if c.Asserts == nil {
